@@ -116,3 +116,28 @@ Print Assumptions C09_end_gradients.
 Print Assumptions C09_monotone_cubic.
 Print Assumptions C09_nesting.
 Print Assumptions C09_erf_branches.
+
+(* ---------------------------------------------------------------------------------------------------------------
+   Equilibrium.make1dGrid (theories/Model_Grid1d.v; the PrimFloat instance is run bit for bit against the real method):
+   2n+1 values for n cells, the even ones ARE the face values (so the ends of the grid are exactly the values of the
+   spacing function at 0 and n), the guard is sound in any arithmetic, and over the reals strictly monotone face values
+   (either direction) are always accepted: the grid is refused only when the spacing function itself is not monotone. *)
+From Coq Require Import List Arith.
+From HT Require Import Model_Stencil Proof_Stencil Model_Grid1d Proof_Grid1d.
+Import ListNotations.
+
+Theorem C09_grid_has_the_face_values : forall {T} (O : ops T) (faces : list T) d, faces <> [] ->
+  length (interleave O faces) = (2 * length faces - 1)%nat /\
+  forall k, (k < length faces)%nat -> nth (2 * k) (interleave O faces) d = nth k faces d.
+Proof. intros. split; [apply interleave_length; assumption|apply interleave_even]. Qed.
+
+Theorem C09_grid_guard_sound : forall {T} (O : ops T) (faces r : list T), make_1d_grid O faces = Some r ->
+  r = interleave O faces /\ (all_pos O (diffs O r) = true \/ all_neg O (diffs O r) = true).
+Proof. intros. apply make_1d_grid_sound. assumption. Qed.
+
+Theorem C09_grid_accepts_monotone_faces : forall faces : list R, increasing faces \/ decreasing faces ->
+  make_1d_grid Rops faces = Some (interleave Rops faces).
+Proof. exact make_1d_grid_accepts_monotone. Qed.
+
+Print Assumptions C09_grid_guard_sound.
+Print Assumptions C09_grid_accepts_monotone_faces.
